@@ -18,7 +18,7 @@ src: conf.c
 tier: B
 bound: input <= 8 characters over {a, space, ~, ', "}; HOME unset, empty or "/h"; line-buffer limit CONFIG_BUFF scaled to 32 bytes (stated re-binding)
 unwind: 10
-flags: --unwindset strlen.0:20,strcpy.0:20,harness.1:42,vb_a.0:20,spiftool_safe_strncpy.0:20,mk_str.0:6,strncasecmp.0:4,spifconf_shell_expand:0
+flags: --unwindset strlen.0:20,strcpy.0:20,vb_a.0:20,spiftool_safe_strncpy.0:12,mk_str.0:6,strncasecmp.0:3,spifconf_shell_expand:0,spifconf_shell_expand.7:2,spifconf_shell_expand.10:1,spifconf_shell_expand.15:1,spifconf_shell_expand.21:1,spifconf_shell_expand.22:1,spifconf_shell_expand.23:1,spifconf_shell_expand.28:9,harness.1:42
 objbits: 10
 backend: sat
 timeout: 600
@@ -30,9 +30,9 @@ name: exact_escape
 define: U_EXACT, A_SPACE, A_BS, A_SQ, A_DQ, NMAX=8, BUFF=32, VERIF_EXACT_LIBC, VERIF_OWN_STRLEN, VERIF_OWN_STRCMP, VERIF_OWN_STRDUP, VERIF_OWN_STRCHR
 src: conf.c
 tier: B
-bound: input <= 8 characters over {a, space, \, ', "} that does not end in a backslash; line-buffer limit CONFIG_BUFF scaled to 32 bytes (stated re-binding)
+bound: input <= 8 characters over {a, space, backslash, ', "} that does not end in a backslash; line-buffer limit CONFIG_BUFF scaled to 32 bytes (stated re-binding)
 unwind: 10
-flags: --unwindset strlen.0:12,strcpy.0:12,harness.1:42,vb_a.0:12,spiftool_safe_strncpy.0:12,mk_str.0:6,strncasecmp.0:4,spifconf_shell_expand:0
+flags: --unwindset strlen.0:12,strcpy.0:12,vb_a.0:12,spiftool_safe_strncpy.0:12,mk_str.0:6,strncasecmp.0:3,spifconf_shell_expand:0,spifconf_shell_expand.7:2,spifconf_shell_expand.10:1,spifconf_shell_expand.15:1,spifconf_shell_expand.21:1,spifconf_shell_expand.22:1,spifconf_shell_expand.23:1,spifconf_shell_expand.28:9,harness.1:42
 objbits: 10
 backend: sat
 timeout: 600
@@ -44,9 +44,9 @@ name: exact_escape_trailing
 define: U_EXACT, A_SPACE, A_BS, A_SQ, A_DQ, D_FLAGS=RF_TRAIL_BS, D_NEED=RF_TRAIL_BS, NMAX=8, BUFF=32, VERIF_EXACT_LIBC, VERIF_OWN_STRLEN, VERIF_OWN_STRCMP, VERIF_OWN_STRDUP, VERIF_OWN_STRCHR
 src: conf.c
 tier: B
-bound: input <= 8 characters over {a, space, \, ', "} that ends in a backslash; line-buffer limit CONFIG_BUFF scaled to 32 bytes (stated re-binding)
+bound: input <= 8 characters over {a, space, backslash, ', "} that ends in a backslash; line-buffer limit CONFIG_BUFF scaled to 32 bytes (stated re-binding)
 unwind: 10
-flags: --unwindset strlen.0:12,strcpy.0:12,harness.1:42,vb_a.0:12,spiftool_safe_strncpy.0:12,mk_str.0:6,strncasecmp.0:4,spifconf_shell_expand:0
+flags: --unwindset strlen.0:12,strcpy.0:12,vb_a.0:12,spiftool_safe_strncpy.0:12,mk_str.0:6,strncasecmp.0:3,spifconf_shell_expand:0,spifconf_shell_expand.7:2,spifconf_shell_expand.10:1,spifconf_shell_expand.15:1,spifconf_shell_expand.21:1,spifconf_shell_expand.22:1,spifconf_shell_expand.23:1,spifconf_shell_expand.28:9,harness.1:42
 objbits: 10
 backend: sat
 timeout: 600
@@ -60,7 +60,7 @@ src: conf.c
 tier: B
 bound: input <= 8 characters over {a, space, $, ', "}, every $ followed by a name; $a set to "V"; line-buffer limit CONFIG_BUFF scaled to 32 bytes (stated re-binding)
 unwind: 10
-flags: --unwindset strlen.0:14,strcpy.0:14,harness.1:42,vb_a.0:14,spiftool_safe_strncpy.0:14,mk_str.0:6,strncasecmp.0:4,spifconf_shell_expand:0
+flags: --unwindset strlen.0:14,strcpy.0:14,vb_a.0:14,spiftool_safe_strncpy.0:12,mk_str.0:6,strncasecmp.0:3,spifconf_shell_expand:0,spifconf_shell_expand.7:2,spifconf_shell_expand.10:1,spifconf_shell_expand.15:1,spifconf_shell_expand.21:8,spifconf_shell_expand.22:8,spifconf_shell_expand.23:8,spifconf_shell_expand.28:9,harness.1:42
 objbits: 10
 backend: sat
 timeout: 600
@@ -74,7 +74,7 @@ src: conf.c
 tier: B
 bound: input <= 8 characters over {a, space, $, ', "}, every $ followed by a name; $a unset or empty; line-buffer limit CONFIG_BUFF scaled to 32 bytes (stated re-binding)
 unwind: 10
-flags: --unwindset strlen.0:12,strcpy.0:12,harness.1:42,vb_a.0:12,spiftool_safe_strncpy.0:12,mk_str.0:6,strncasecmp.0:4,spifconf_shell_expand:0
+flags: --unwindset strlen.0:12,strcpy.0:12,vb_a.0:12,spiftool_safe_strncpy.0:12,mk_str.0:6,strncasecmp.0:3,spifconf_shell_expand:0,spifconf_shell_expand.7:2,spifconf_shell_expand.10:1,spifconf_shell_expand.15:1,spifconf_shell_expand.21:8,spifconf_shell_expand.22:8,spifconf_shell_expand.23:8,spifconf_shell_expand.28:9,harness.1:42
 objbits: 10
 backend: sat
 timeout: 600
@@ -88,7 +88,7 @@ src: conf.c
 tier: B
 bound: input <= 8 characters over {a, $, {, }, (, )}, every ${ and $( closed and named; $a unset, empty or "V"; line-buffer limit CONFIG_BUFF scaled to 32 bytes (stated re-binding)
 unwind: 10
-flags: --unwindset strlen.0:14,strcpy.0:14,harness.1:42,vb_a.0:14,spiftool_safe_strncpy.0:14,mk_str.0:6,strncasecmp.0:4,spifconf_shell_expand:0
+flags: --unwindset strlen.0:14,strcpy.0:14,vb_a.0:14,spiftool_safe_strncpy.0:12,mk_str.0:6,strncasecmp.0:3,spifconf_shell_expand:0,spifconf_shell_expand.7:2,spifconf_shell_expand.10:1,spifconf_shell_expand.15:1,spifconf_shell_expand.21:8,spifconf_shell_expand.22:8,spifconf_shell_expand.23:8,spifconf_shell_expand.28:9,harness.1:42
 objbits: 10
 backend: sat
 timeout: 600
@@ -102,7 +102,7 @@ src: conf.c
 tier: B
 bound: input <= 6 characters over {a, space, $} with a $ that names nothing; line-buffer limit CONFIG_BUFF scaled to 32 bytes (stated re-binding)
 unwind: 8
-flags: --unwindset strlen.0:12,strcpy.0:12,harness.1:42,vb_a.0:12,spiftool_safe_strncpy.0:12,mk_str.0:6,strncasecmp.0:4,spifconf_shell_expand:0
+flags: --unwindset strlen.0:12,strcpy.0:12,vb_a.0:12,spiftool_safe_strncpy.0:12,mk_str.0:6,strncasecmp.0:3,spifconf_shell_expand:0,spifconf_shell_expand.7:2,spifconf_shell_expand.10:1,spifconf_shell_expand.15:1,spifconf_shell_expand.21:6,spifconf_shell_expand.22:6,spifconf_shell_expand.23:6,spifconf_shell_expand.28:7,harness.1:42
 objbits: 10
 backend: sat
 timeout: 600
@@ -116,11 +116,12 @@ src: conf.c
 tier: B
 bound: inputs of the shape ?%a(??)? -- each ? any of {a, space, %, (, )} -- in which every % starts a balanced call of the built-in a; line-buffer limit CONFIG_BUFF scaled to 32 bytes (stated re-binding)
 unwind: 10
-flags: --unwindset strlen.0:18,strcpy.0:18,harness.1:42,vb_a.0:18,spiftool_safe_strncpy.0:18,mk_str.0:6,strncasecmp.0:4,spifconf_shell_expand:2
+flags: --unwindset strlen.0:18,strcpy.0:18,vb_a.0:18,spiftool_safe_strncpy.0:12,mk_str.0:6,strncasecmp.0:3,spifconf_shell_expand:2,spifconf_shell_expand.7:2,spifconf_shell_expand.10:8,spifconf_shell_expand.15:1,spifconf_shell_expand.21:1,spifconf_shell_expand.22:1,spifconf_shell_expand.23:1,spifconf_shell_expand.28:9,harness.1:42
 objbits: 10
 backend: sat
-timeout: 600
+timeout: 900
 quick: yes
+mem: 12
 funcs: spifconf_shell_expand
 */
 /*@unit
@@ -130,7 +131,7 @@ src: conf.c
 tier: B
 bound: inputs of the shape ?%a()? -- each ? any of {a, space, %, (, )} -- in which every % starts a balanced call; line-buffer limit CONFIG_BUFF scaled to 32 bytes (stated re-binding)
 unwind: 8
-flags: --unwindset strlen.0:16,strcpy.0:16,harness.1:42,vb_a.0:16,spiftool_safe_strncpy.0:16,mk_str.0:6,strncasecmp.0:4,spifconf_shell_expand:1
+flags: --unwindset strlen.0:16,strcpy.0:16,vb_a.0:16,spiftool_safe_strncpy.0:12,mk_str.0:6,strncasecmp.0:3,spifconf_shell_expand:1,spifconf_shell_expand.7:2,spifconf_shell_expand.10:6,spifconf_shell_expand.15:1,spifconf_shell_expand.21:1,spifconf_shell_expand.22:1,spifconf_shell_expand.23:1,spifconf_shell_expand.28:7,harness.1:42
 objbits: 10
 backend: sat
 timeout: 600
@@ -144,11 +145,12 @@ src: conf.c
 tier: B
 bound: inputs of the shape %a(?%a(?))? -- each ? any of {a, space, %, (, )} -- nested calls, innermost first; line-buffer limit CONFIG_BUFF scaled to 32 bytes (stated re-binding)
 unwind: 13
-flags: --unwindset strlen.0:20,strcpy.0:20,harness.1:42,vb_a.0:20,spiftool_safe_strncpy.0:20,mk_str.0:6,strncasecmp.0:4,spifconf_shell_expand:2
+flags: --unwindset strlen.0:20,strcpy.0:20,vb_a.0:20,spiftool_safe_strncpy.0:12,mk_str.0:6,strncasecmp.0:3,spifconf_shell_expand:2,spifconf_shell_expand.7:2,spifconf_shell_expand.10:11,spifconf_shell_expand.15:1,spifconf_shell_expand.21:1,spifconf_shell_expand.22:1,spifconf_shell_expand.23:1,spifconf_shell_expand.28:12,harness.1:42
 objbits: 10
 backend: sat
-timeout: 600
+timeout: 900
 quick: yes
+mem: 12
 funcs: spifconf_shell_expand
 */
 /*@unit
@@ -158,11 +160,12 @@ src: conf.c
 tier: B
 bound: inputs of the shape %a(?)?%a(?) -- each ? any of {a, space, %, (, )}; line-buffer limit CONFIG_BUFF scaled to 32 bytes (stated re-binding)
 unwind: 13
-flags: --unwindset strlen.0:20,strcpy.0:20,harness.1:42,vb_a.0:20,spiftool_safe_strncpy.0:20,mk_str.0:6,strncasecmp.0:4,spifconf_shell_expand:1
+flags: --unwindset strlen.0:20,strcpy.0:20,vb_a.0:20,spiftool_safe_strncpy.0:12,mk_str.0:6,strncasecmp.0:3,spifconf_shell_expand:1,spifconf_shell_expand.7:2,spifconf_shell_expand.10:11,spifconf_shell_expand.15:1,spifconf_shell_expand.21:1,spifconf_shell_expand.22:1,spifconf_shell_expand.23:1,spifconf_shell_expand.28:12,harness.1:42
 objbits: 10
 backend: sat
-timeout: 600
+timeout: 900
 quick: yes
+mem: 12
 funcs: spifconf_shell_expand
 */
 /*@unit
@@ -172,7 +175,7 @@ src: conf.c
 tier: B
 bound: inputs of the shape ?%??? -- each ? any of {a, space, %, (, )} -- with a % that starts no call (and is not followed by 'a )'); line-buffer limit CONFIG_BUFF scaled to 32 bytes (stated re-binding)
 unwind: 7
-flags: --unwindset strlen.0:14,strcpy.0:14,harness.1:42,vb_a.0:14,spiftool_safe_strncpy.0:14,mk_str.0:6,strncasecmp.0:4,spifconf_shell_expand:1
+flags: --unwindset strlen.0:14,strcpy.0:14,vb_a.0:14,spiftool_safe_strncpy.0:12,mk_str.0:6,strncasecmp.0:3,spifconf_shell_expand:1,spifconf_shell_expand.7:2,spifconf_shell_expand.10:5,spifconf_shell_expand.15:1,spifconf_shell_expand.21:1,spifconf_shell_expand.22:1,spifconf_shell_expand.23:1,spifconf_shell_expand.28:6,harness.1:42
 objbits: 10
 backend: sat
 timeout: 600
@@ -186,7 +189,149 @@ src: conf.c
 tier: B
 bound: inputs of the shape ?%a(???)? -- each ? any of {a, space, ~, backslash, ', "}: quotes, tildes and escapes inside and around call arguments; line-buffer limit CONFIG_BUFF scaled to 32 bytes (stated re-binding)
 unwind: 11
-flags: --unwindset strlen.0:24,strcpy.0:24,harness.1:42,vb_a.0:24,spiftool_safe_strncpy.0:24,mk_str.0:6,strncasecmp.0:4,spifconf_shell_expand:1
+flags: --unwindset strlen.0:24,strcpy.0:24,vb_a.0:24,spiftool_safe_strncpy.0:12,mk_str.0:6,strncasecmp.0:3,spifconf_shell_expand:1,spifconf_shell_expand.7:2,spifconf_shell_expand.10:9,spifconf_shell_expand.15:1,spifconf_shell_expand.21:1,spifconf_shell_expand.22:1,spifconf_shell_expand.23:1,spifconf_shell_expand.28:10,harness.1:42
+objbits: 10
+backend: sat
+timeout: 900
+quick: yes
+mem: 12
+funcs: spifconf_shell_expand
+*/
+/*@unit
+name: reads_plain
+define: U_READS, VB_NOGROW, A_SPACE, A_TILDE, A_BRACE, A_PAREN, A_SQ, A_DQ, NMAX=8, BUFF=32, VERIF_EXACT_LIBC, VERIF_OWN_STRLEN, VERIF_OWN_STRCMP, VERIF_OWN_STRDUP, VERIF_OWN_STRCHR
+src: conf.c
+tier: B
+bound: input <= 8 characters over {a, space, ~, {, }, (, ), ', "} in a block of exactly strlen+1 bytes; line-buffer limit CONFIG_BUFF scaled to 32 bytes (stated re-binding)
+unwind: 10
+flags: --unwindset strlen.0:12,strcpy.0:12,vb_a.0:12,spiftool_safe_strncpy.0:12,mk_str.0:6,strncasecmp.0:3,spifconf_shell_expand:0,spifconf_shell_expand.7:2,spifconf_shell_expand.10:1,spifconf_shell_expand.15:1,spifconf_shell_expand.21:1,spifconf_shell_expand.22:1,spifconf_shell_expand.23:1,spifconf_shell_expand.28:9
+objbits: 10
+backend: sat
+timeout: 600
+quick: yes
+funcs: spifconf_shell_expand
+*/
+/*@unit
+name: reads_backslash
+define: U_READS, VB_NOGROW, A_BS, A_SQ, NMAX=6, BUFF=32, VERIF_EXACT_LIBC, VERIF_OWN_STRLEN, VERIF_OWN_STRCMP, VERIF_OWN_STRDUP, VERIF_OWN_STRCHR
+src: conf.c
+tier: B
+bound: input <= 6 characters over {a, backslash, '} in a block of exactly strlen+1 bytes; line-buffer limit CONFIG_BUFF scaled to 32 bytes (stated re-binding)
+unwind: 8
+flags: --unwindset strlen.0:10,strcpy.0:10,vb_a.0:10,spiftool_safe_strncpy.0:12,mk_str.0:6,strncasecmp.0:3,spifconf_shell_expand:0,spifconf_shell_expand.7:2,spifconf_shell_expand.10:1,spifconf_shell_expand.15:1,spifconf_shell_expand.21:1,spifconf_shell_expand.22:1,spifconf_shell_expand.23:1,spifconf_shell_expand.28:7
+objbits: 10
+backend: sat
+timeout: 600
+quick: yes
+funcs: spifconf_shell_expand
+*/
+/*@unit
+name: reads_dollar
+define: U_READS, VB_NOGROW, A_DOLLAR, A_BRACE, A_PAREN, NMAX=6, BUFF=32, VERIF_EXACT_LIBC, VERIF_OWN_STRLEN, VERIF_OWN_STRCMP, VERIF_OWN_STRDUP, VERIF_OWN_STRCHR
+src: conf.c
+tier: B
+bound: input <= 6 characters over {a, $, {, }, (, )} in a block of exactly strlen+1 bytes; $a unset or empty; line-buffer limit CONFIG_BUFF scaled to 32 bytes (stated re-binding)
+unwind: 8
+flags: --unwindset strlen.0:10,strcpy.0:10,vb_a.0:10,spiftool_safe_strncpy.0:12,mk_str.0:6,strncasecmp.0:3,spifconf_shell_expand:0,spifconf_shell_expand.7:2,spifconf_shell_expand.10:1,spifconf_shell_expand.15:1,spifconf_shell_expand.21:6,spifconf_shell_expand.22:6,spifconf_shell_expand.23:6,spifconf_shell_expand.28:7
+objbits: 10
+backend: sat
+timeout: 600
+quick: yes
+funcs: spifconf_shell_expand
+*/
+/*@unit
+name: reads_percent
+define: U_READS, VB_NOGROW, A_SPACE, A_PCT, A_PAREN, NMAX=5, BUFF=32, VERIF_EXACT_LIBC, VERIF_OWN_STRLEN, VERIF_OWN_STRCMP, VERIF_OWN_STRDUP, VERIF_OWN_STRCHR
+src: conf.c
+tier: B
+bound: input <= 5 characters over {a, space, %, (, )} in a block of exactly strlen+1 bytes; the built-in returns NULL or ""; line-buffer limit CONFIG_BUFF scaled to 32 bytes (stated re-binding)
+unwind: 7
+flags: --unwindset strlen.0:10,strcpy.0:10,vb_a.0:10,spiftool_safe_strncpy.0:12,mk_str.0:6,strncasecmp.0:3,spifconf_shell_expand:1,spifconf_shell_expand.7:2,spifconf_shell_expand.10:5,spifconf_shell_expand.15:1,spifconf_shell_expand.21:1,spifconf_shell_expand.22:1,spifconf_shell_expand.23:1,spifconf_shell_expand.28:6
+objbits: 10
+backend: sat
+timeout: 900
+quick: yes
+mem: 12
+funcs: spifconf_shell_expand
+*/
+/*@unit
+name: determinism_plain
+define: U_DET, A_SPACE, A_TILDE, A_BS, A_SQ, A_DQ, NMAX=6, BUFF=32, VERIF_EXACT_LIBC, VERIF_OWN_STRLEN, VERIF_OWN_STRCMP, VERIF_OWN_STRDUP, VERIF_OWN_STRCHR
+src: conf.c
+tier: B
+bound: two calls, input <= 6 characters over {a, space, ~, backslash, ', "} not ending in a backslash, different leftovers; line-buffer limit CONFIG_BUFF scaled to 32 bytes (stated re-binding)
+unwind: 8
+flags: --unwindset strlen.0:16,strcpy.0:16,vb_a.0:16,spiftool_safe_strncpy.0:12,mk_str.0:6,strncasecmp.0:3,spifconf_shell_expand:0,spifconf_shell_expand.7:2,spifconf_shell_expand.10:1,spifconf_shell_expand.15:1,spifconf_shell_expand.21:1,spifconf_shell_expand.22:1,spifconf_shell_expand.23:1,spifconf_shell_expand.28:7,strcmp.0:16
+objbits: 10
+backend: sat
+timeout: 600
+quick: yes
+funcs: spifconf_shell_expand
+*/
+/*@unit
+name: determinism_env
+define: U_DET, A_SPACE, A_DOLLAR, A_BRACE, D_FLAGS=RF_LONEDOLLAR, NMAX=6, BUFF=32, VERIF_EXACT_LIBC, VERIF_OWN_STRLEN, VERIF_OWN_STRCMP, VERIF_OWN_STRDUP, VERIF_OWN_STRCHR
+src: conf.c
+tier: B
+bound: two calls, input <= 6 characters over {a, space, $, {, }} with every ${ closed and named, different leftovers; line-buffer limit CONFIG_BUFF scaled to 32 bytes (stated re-binding)
+unwind: 8
+flags: --unwindset strlen.0:12,strcpy.0:12,vb_a.0:12,spiftool_safe_strncpy.0:12,mk_str.0:6,strncasecmp.0:3,spifconf_shell_expand:0,spifconf_shell_expand.7:2,spifconf_shell_expand.10:1,spifconf_shell_expand.15:1,spifconf_shell_expand.21:6,spifconf_shell_expand.22:6,spifconf_shell_expand.23:6,spifconf_shell_expand.28:7,strcmp.0:12
+objbits: 10
+backend: sat
+timeout: 600
+quick: yes
+funcs: spifconf_shell_expand
+*/
+/*@unit
+name: limit_tilde_env
+define: U_LIMIT, A_TILDE, A_DOLLAR, A_SQ, VLEN=14, NMAX=4, BUFF=12, VERIF_EXACT_LIBC, VERIF_OWN_STRLEN, VERIF_OWN_STRCMP, VERIF_OWN_STRDUP, VERIF_OWN_STRCHR
+src: conf.c
+tier: B
+bound: input <= 4 characters over {a, ~, $, '}; HOME and $a unset or any string of <= 14 characters; line-buffer limit CONFIG_BUFF scaled to 12 bytes (stated re-binding)
+unwind: 8
+flags: --unwindset strlen.0:16,strcpy.0:16,vb_a.0:16,spiftool_safe_strncpy.0:12,mk_str.0:6,strncasecmp.0:3,spifconf_shell_expand:0,spifconf_shell_expand.7:2,spifconf_shell_expand.10:1,spifconf_shell_expand.15:1,spifconf_shell_expand.21:4,spifconf_shell_expand.22:4,spifconf_shell_expand.23:4,spifconf_shell_expand.28:5,pick_value.0:16,harness.1:14
+objbits: 10
+backend: sat
+timeout: 600
+quick: yes
+funcs: spifconf_shell_expand
+*/
+/*@unit
+name: namebuf_brace
+define: U_NAMEBUF, A_DOLLAR, FORM=1, NMAX=134, BUFF=160, VERIF_EXACT_LIBC, VERIF_OWN_STRLEN, VERIF_OWN_STRCMP, VERIF_OWN_STRDUP, VERIF_OWN_STRCHR
+src: conf.c
+tier: B
+bound: input ${ + 127 x a + <= 5 characters of {a, }, ), space}; line-buffer limit CONFIG_BUFF scaled to 160 bytes (stated re-binding)
+unwind: 8
+flags: --unwindset strlen.0:140,strcpy.0:140,vb_a.0:142,spiftool_safe_strncpy.0:12,mk_str.0:6,strncasecmp.0:3,spifconf_shell_expand:0,spifconf_shell_expand.7:2,spifconf_shell_expand.10:1,spifconf_shell_expand.15:1,spifconf_shell_expand.21:130,spifconf_shell_expand.22:130,spifconf_shell_expand.23:130,spifconf_shell_expand.28:8,harness.0:128,harness.1:6
+objbits: 10
+backend: sat
+timeout: 600
+quick: yes
+funcs: spifconf_shell_expand
+*/
+/*@unit
+name: namebuf_paren
+define: U_NAMEBUF, A_DOLLAR, FORM=2, NMAX=134, BUFF=160, VERIF_EXACT_LIBC, VERIF_OWN_STRLEN, VERIF_OWN_STRCMP, VERIF_OWN_STRDUP, VERIF_OWN_STRCHR
+src: conf.c
+tier: B
+bound: input $( + 127 x a + <= 5 characters of {a, }, ), space}; line-buffer limit CONFIG_BUFF scaled to 160 bytes (stated re-binding)
+unwind: 8
+flags: --unwindset strlen.0:140,strcpy.0:140,vb_a.0:142,spiftool_safe_strncpy.0:12,mk_str.0:6,strncasecmp.0:3,spifconf_shell_expand:0,spifconf_shell_expand.7:2,spifconf_shell_expand.10:1,spifconf_shell_expand.15:1,spifconf_shell_expand.21:130,spifconf_shell_expand.22:130,spifconf_shell_expand.23:130,spifconf_shell_expand.28:8,harness.0:128,harness.1:6
+objbits: 10
+backend: sat
+timeout: 600
+quick: yes
+funcs: spifconf_shell_expand
+*/
+/*@unit
+name: namebuf_plain
+define: U_NAMEBUF, A_DOLLAR, FORM=3, NMAX=134, BUFF=160, VERIF_EXACT_LIBC, VERIF_OWN_STRLEN, VERIF_OWN_STRCMP, VERIF_OWN_STRDUP, VERIF_OWN_STRCHR
+src: conf.c
+tier: B
+bound: input $ + 127 x a + <= 5 characters of {a, }, ), space}; line-buffer limit CONFIG_BUFF scaled to 160 bytes (stated re-binding)
+unwind: 8
+flags: --unwindset strlen.0:140,strcpy.0:140,vb_a.0:142,spiftool_safe_strncpy.0:12,mk_str.0:6,strncasecmp.0:3,spifconf_shell_expand:0,spifconf_shell_expand.7:2,spifconf_shell_expand.10:1,spifconf_shell_expand.15:1,spifconf_shell_expand.21:130,spifconf_shell_expand.22:130,spifconf_shell_expand.23:130,spifconf_shell_expand.28:8,harness.0:128,harness.1:6
 objbits: 10
 backend: sat
 timeout: 600
@@ -248,6 +393,9 @@ static spif_charptr_t vb_a(spif_charptr_t param)
     size_t n, i;
     char *r;
     if (param == NULL || param[0] == 0) return NULL;
+#ifdef VB_NOGROW
+    r = malloc(1); r[0] = 0; return r;            /* reads_* units: the result never makes the text longer */
+#endif
     if (param[0] == ' ') { r = malloc(1); r[0] = 0; return r; }
     n = strlen(param);
     r = malloc(n + 3);
@@ -326,13 +474,13 @@ static size_t ref_expand(const char *in, size_t len, char *out, int depth)
 #if defined(A_PCT) || defined(A_PCT_FIXED)
         else if (c == '%') {
             if (i + 2 < len && tolower(in[i + 1]) == 'a' && in[i + 2] == '(') {       /* %a( ... ) */
-                size_t a = i + 3, e, depth = 1;
+                size_t a = i + 3, e, nest = 1;
                 char arg[R_OUTMAX];
                 size_t alen;
                 spif_charptr_t res;
                 for (e = a; e < len; e++) {
-                    if (in[e] == '(') depth++;
-                    else if (in[e] == ')' && --depth == 0) break;
+                    if (in[e] == '(') nest++;
+                    else if (in[e] == ')' && --nest == 0) break;
                 }
                 if (e >= len) { ref_flags |= RF_MISMATCH; out[o] = 0; return o; }
                 if (depth <= 0) { ref_flags |= RF_OVERFLOW; out[o] = 0; return o; }
@@ -475,6 +623,116 @@ void harness(void)
     __CPROVER_assert(strlen((char *) buf) == rl, "length of the result equals the reference expansion");
     for (i = 0; i <= rl; i++)
         __CPROVER_assert(buf[i] == ref[i], "result equals the reference expansion (text before and after each construct preserved)");
+    VERIF_CANARY();
+}
+#endif
+
+#ifdef U_READS
+/* nothing can grow (HOME and $a unset or empty, the built-in returns NULL or ""), so a block of exactly
+ * strlen+1 bytes is a legitimate argument: every read behind the terminator, every write outside a buffer
+ * is a failed pointer check of cbmc. */
+void harness(void)
+{
+    size_t i;
+    spif_charptr_t buf, r;
+    pick_input();
+    vb_home = nondet_bool() ? (char *) 0 : mk_str("");
+    vb_env_a = nondet_bool() ? (char *) 0 : mk_str("");
+    setup_builtins();
+    buf = malloc(w_len + 1);
+    for (i = 0; i <= w_len; i++) buf[i] = w_in[i];
+    r = spifconf_shell_expand(buf);
+    __CPROVER_assert(r == buf || r == NULL, "returns its argument or NULL");
+    VERIF_CANARY();
+}
+#endif
+
+#ifdef U_DET
+/* determinism lemma: equal text, equal environment, equal (empty) variable store; the bytes behind the
+ * terminator of the two line buffers differ arbitrarily, and so do the initial contents of the stack buffer
+ * newbuff of the two calls (cbmc gives every uninitialised local fresh arbitrary contents). */
+void harness(void)
+{
+    char ref[R_OUTMAX];
+    size_t i;
+    spif_charptr_t b1, b2, r1, r2;
+    pick_input();
+    pick_environment();
+    setup_builtins();
+    ref_flags = 0;
+    (void) ref_expand(w_in, w_len, ref, 2);
+#ifndef D_FLAGS
+# define D_FLAGS 0u
+#endif
+    __CPROVER_assume((ref_flags & ~(D_FLAGS)) == 0);         /* the unit's behaviour (defined inputs) */
+    b1 = malloc(CONFIG_BUFF); b2 = malloc(CONFIG_BUFF);      /* arbitrary, independent contents */
+    for (i = 0; i <= w_len; i++) { b1[i] = w_in[i]; b2[i] = w_in[i]; }
+    r1 = spifconf_shell_expand(b1);
+    r2 = spifconf_shell_expand(b2);
+    __CPROVER_assert((r1 == NULL) == (r2 == NULL), "both calls succeed or both fail");
+    __CPROVER_assert(strcmp((char *) b1, (char *) b2) == 0, "two calls on the same text give the same result (no dependence on leftover stack or heap bytes)");
+    VERIF_CANARY();
+}
+#endif
+
+#ifdef U_LIMIT
+/* the buffer limit: values of arbitrary length <= VLEN make the output index reach the (scaled) limit after
+ * a few characters.  Obligations: every access inside its buffer (cbmc checks), the result is NUL-terminated
+ * and not longer than CONFIG_BUFF-1, or NULL is returned and the argument is still a C string. */
+static char *pick_value(void)
+{
+    size_t n = nondet_size_t(), i;
+    char *v;
+    if (nondet_bool()) return (char *) 0;
+    __CPROVER_assume(n <= VLEN);
+    v = malloc(VLEN + 1);
+    for (i = 0; i < VLEN; i++) { char c = nondet_char(); __CPROVER_assume(i < n ? c != 0 : c == 0); v[i] = c; }
+    v[VLEN] = 0;
+    return v;
+}
+void harness(void)
+{
+    size_t i, n;
+    spif_charptr_t buf, r;
+    pick_input();
+    vb_home = pick_value();
+    vb_env_a = pick_value();
+    setup_builtins();
+    buf = malloc(CONFIG_BUFF);
+    for (i = 0; i <= w_len; i++) buf[i] = w_in[i];
+    r = spifconf_shell_expand(buf);
+    __CPROVER_assert(r == buf || r == NULL, "returns its argument or NULL");
+    for (n = 0; n < CONFIG_BUFF && buf[n]; n++) ;
+    __CPROVER_assert(n <= CONFIG_BUFF - 1, "result NUL-terminated and not longer than the line-buffer limit");
+    VERIF_CANARY();
+}
+#endif
+
+#ifdef U_NAMEBUF
+/* the 128-byte name buffer: a reference whose name has 127 + up to 5 more characters */
+void harness(void)
+{
+    size_t i, pos = 0;
+    spif_charptr_t buf, r;
+    buf = malloc(CONFIG_BUFF);
+    buf[pos++] = '$';
+#if FORM == 1
+    buf[pos++] = '{';
+#elif FORM == 2
+    buf[pos++] = '(';
+#endif
+    for (i = 0; i < 127; i++) buf[pos++] = 'a';
+    for (i = 0; i < 5; i++) {                              /* tail: more name characters, the closer, or the end */
+        char c = nondet_char();
+        __CPROVER_assume(c == 'a' || c == '}' || c == ')' || c == ' ' || c == 0);
+        buf[pos++] = c;
+    }
+    buf[pos] = 0;
+    vb_home = (char *) 0;
+    vb_env_a = nondet_bool() ? (char *) 0 : mk_str("V");
+    setup_builtins();
+    r = spifconf_shell_expand(buf);
+    __CPROVER_assert(r == buf || r == NULL, "returns its argument or NULL");
     VERIF_CANARY();
 }
 #endif
